@@ -1986,6 +1986,22 @@ let classify g s o =
      else if Nat.ltb n0 f then DHead (add l (S O)) else DTail n0
    | _ -> DNoop)
 
+(** val pm3_tx : shared -> op option -> nat -> kont -> shared * nat list **)
+
+let pm3_tx g o y k =
+  let same = ((publish g (mk_state (getst g y).s_segs (getst g y).s_min)), [])
+  in
+  (match k with
+   | KRot -> do_rotate g y
+   | _ ->
+     (match o with
+      | Some o0 ->
+        (match classify g (getst g y) o0 with
+         | DNoop -> same
+         | DHead m -> do_trunc_head g y m
+         | DTail m -> do_trunc_tail g y m)
+      | None -> same))
+
 (** val cur_op : thread -> op option **)
 
 let cur_op th =
@@ -2208,32 +2224,7 @@ let step_thread g me th =
     then Some (g1, (setpc th (PRel (y, MetaErr, k))))
     else Some (g1, (setpc th (PM3 (y, k))))
   | PM3 (y, k) ->
-    let (g', hs) =
-      match k with
-      | KRet ->
-        (match cur_op th with
-         | Some o ->
-           (match classify g (getst g y) o with
-            | DNoop ->
-              ((publish g (mk_state (getst g y).s_segs (getst g y).s_min)),
-                [])
-            | DHead m -> do_trunc_head g y m
-            | DTail m -> do_trunc_tail g y m)
-         | None ->
-           ((publish g (mk_state (getst g y).s_segs (getst g y).s_min)), []))
-      | KRot -> do_rotate g y
-      | _ ->
-        (match cur_op th with
-         | Some o ->
-           (match classify g (getst g y) o with
-            | DNoop ->
-              ((publish g (mk_state (getst g y).s_segs (getst g y).s_min)),
-                [])
-            | DHead m -> do_trunc_head g y m
-            | DTail m -> do_trunc_tail g y m)
-         | None ->
-           ((publish g (mk_state (getst g y).s_segs (getst g y).s_min)), []))
-    in
+    let (g', hs) = pm3_tx g (cur_op th) y k in
     Some (g', (setpc th (PM4 (y, (FSet (hs, g'.g_cur)), k))))
   | PM4 (y, f, k) ->
     Some ((upd_st g y (st_retire (getst g y) f)),
